@@ -112,7 +112,13 @@ func (e *End) Send(pkt packet.Generic, async bool) error {
 		e.Close()
 		return err
 	}
-	buf = buf[:n]
+	return e.sendFrame(buf[:n], pkt, true)
+}
+
+// sendFrame transfers one encoded frame to the other side, honouring the fault switches. selfClose: an injected
+// failure also closes the connection (what transport.BaseConn does on a write error); the byte-stream adapter
+// (EndCarrier) passes false because there the real BaseConn above it has to do that.
+func (e *End) sendFrame(buf []byte, pkt packet.Generic, selfClose bool) error {
 	if e.failSendAt > 0 {
 		e.failSendAt--
 	}
@@ -122,10 +128,12 @@ func (e *End) Send(pkt packet.Generic, async bool) error {
 		e.failSend = NoFail
 	}
 	if mode == FailBefore {
-		e.Close()
+		if selfClose {
+			e.Close()
+		}
 		return ErrInjected
 	}
-	if e.OnSend != nil {
+	if e.OnSend != nil && pkt != nil {
 		e.OnSend(pkt)
 	}
 	select {
@@ -135,23 +143,45 @@ func (e *End) Send(pkt packet.Generic, async bool) error {
 	}
 	e.Sent++
 	if mode == FailAfter {
-		e.Close()
+		if selfClose {
+			e.Close()
+		}
 		return ErrInjected
 	}
 	return nil
 }
 
 func (e *End) Receive() (packet.Generic, error) {
+	frame, err := e.recvFrame(true)
+	if err != nil {
+		return nil, err
+	}
+	pkt, err := DecodeFrame(frame, e.ReadLimit)
+	if err != nil {
+		e.Close()
+		return nil, err
+	}
+	e.Received++
+	if e.OnRecv != nil {
+		e.OnRecv(pkt)
+	}
+	return pkt, nil
+}
+
+// recvFrame waits for the next frame from the other side, honouring the fault switches (selfClose as in sendFrame).
+func (e *End) recvFrame(selfClose bool) ([]byte, error) {
 	if e.failRecv {
 		e.failRecv = false
-		e.Close()
+		if selfClose {
+			e.Close()
+		}
 		return nil, ErrInjected
 	}
 	var frame []byte
 	if e.LocalClosed {
 		// a locally closed connection fails reads, except that a packet that had already been
 		// buffered may still be handed out (bufio in packet.Decoder): owned choice, default = fail
-		if len(e.in) > 0 && vrt.ChooseDev(2, "read-after-local-close") == 1 {
+		if len(e.in) > 0 && selfClose && vrt.ChooseDev(2, "read-after-local-close") == 1 {
 			frame = <-e.in
 		} else {
 			return nil, ErrClosedPipe
@@ -174,21 +204,14 @@ func (e *End) Receive() (packet.Generic, error) {
 					return nil, io.EOF
 				}
 			case <-e.expired:
-				e.Close()
+				if selfClose {
+					e.Close()
+				}
 				return nil, ErrReadTimeout
 			}
 		}
 	}
-	pkt, err := DecodeFrame(frame, e.ReadLimit)
-	if err != nil {
-		e.Close()
-		return nil, err
-	}
-	e.Received++
-	if e.OnRecv != nil {
-		e.OnRecv(pkt)
-	}
-	return pkt, nil
+	return frame, nil
 }
 
 // DecodeFrame does what packet.Decoder.Read does with one complete frame.
